@@ -5,6 +5,8 @@
 -/
 import Driver.Base
 import Driver.Ops
+import Driver.P_Errors
+import Driver.P_Io
 import Driver.P_Image
 import Driver.P_Arith
 import Driver.P_Copy
@@ -15,9 +17,9 @@ namespace Meddly
 namespace Plugins
 open Funcs
 
-def specChain : List Ops.SpecFn := [P_Image.spec, PArith.spec, PCopy.spec, PIndex.spec, PIter.spec, Ops.specSet, Ops.specNumBasic]
+def specChain : List Ops.SpecFn := [PErrors.spec, P_Io.spec, P_Image.spec, PArith.spec, PCopy.spec, PIndex.spec, PIter.spec, Ops.specSet, Ops.specNumBasic]
 
-def stepChain : List (St → Nat → List String → Option St) := [P_Image.step, PArith.step, PIndex.step, PIter.step]
+def stepChain : List (St → Nat → List String → Option St) := [PErrors.step, P_Io.step, P_Image.step, PArith.step, PIndex.step, PIter.step]
 
 def spec (dom : Array Nat) (kindOf : Ops.KindOf) (op : String) (args : List (String × Spec.Table))
     (scalars : List (String × String)) : Except String Spec.Table :=
